@@ -196,3 +196,12 @@ def single_end_step_abstract(c):
 def extra_checks(res, tier, seed, known, log):
     from pyvc import runner
     runner.cli_grid(res, "C04", tier, seed, known)
+    # finite: the categories steps count in are categories the report prints
+    r = runner.run_native("filter_categories.py", {}, timeout=300)
+    js = r["json"] or {}
+    res.finite.append({"name": "every filter category of a predicate / demultiplexer is printed by the report (report.FILTERS)",
+                       "cases": js.get("cases", 0), "exhaustive": True, "failures": js.get("failures", [])[:3]})
+    if js.get("failures") or not js.get("cases"):
+        path = runner.write_replay("C04", "finite.filter_categories", {"property": "C04", "obligation": "finite:filter_categories",
+                                                                       "failing_input": (js.get("failures") or [r["stderr"][-500:]])[0]})
+        res.violations.append({"replay": path})
